@@ -151,6 +151,10 @@ func init() {
 	}
 }
 
+// c15HangAfter: liveness deadline of one read; set by c15Body to max(90 s, 60 x the duration of reading the
+// complete real file) — a read that has not returned by then (and again with twice the deadline) hangs.
+var c15HangAfter = 10 * time.Minute
+
 // c15Read runs the reader in a goroutine with a liveness deadline far above its normal duration.
 func c15Read(f func() error) (err error, panicked any, hung bool) {
 	type res struct {
@@ -171,8 +175,25 @@ func c15Read(f func() error) (err error, panicked any, hung bool) {
 	select {
 	case r := <-ch:
 		return r.err, r.p, false
-	case <-time.After(10 * time.Minute):
-		return nil, nil, true
+	case <-time.After(c15HangAfter):
+		// believed only if it reproduces: a second run with the deadline doubled
+		ch2 := make(chan res, 1)
+		go func() {
+			var r res
+			defer func() {
+				if p := recover(); p != nil {
+					r.p = p
+				}
+				ch2 <- r
+			}()
+			r.err = f()
+		}()
+		select {
+		case r := <-ch2:
+			return r.err, r.p, false
+		case <-time.After(2 * c15HangAfter):
+			return nil, nil, true
+		}
 	}
 }
 
@@ -309,6 +330,7 @@ func c15Body(c *ev.Ctx) {
 		systems = append(systems, "insertion")
 	}
 	var cliCuts []c15Case
+	nAligned := 0
 	for _, sname := range systems {
 		ps, err := getSystem(sname, 1, 1, 0)
 		if err != nil {
@@ -321,6 +343,21 @@ func c15Body(c *ev.Ctx) {
 			}
 			L := len(data)
 			c.Set(fmt.Sprintf("%s_file_bytes_%s", sname, f), int64(L))
+			{
+				// liveness deadline from the measured duration of reading the complete file
+				t0 := time.Now()
+				full := new(prover.ProvingSystem)
+				if _, err := full.UnsafeReadFrom(bytes.NewReader(data)); err != nil {
+					c.Violation("complete-file-rejected|"+sname+"|"+f, "the complete "+sname+"/"+f+" file is rejected: "+err.Error(), nil)
+				}
+				if d := 60 * time.Since(t0); d > 90*time.Second {
+					if c15HangAfter == 10*time.Minute || d > c15HangAfter {
+						c15HangAfter = d
+					}
+				} else if c15HangAfter == 10*time.Minute {
+					c15HangAfter = 90 * time.Second
+				}
+			}
 			// section boundaries: header | pk | vk | cs
 			var pkLen, vkLen countingWriter
 			if f == "raw" {
@@ -384,6 +421,36 @@ func c15Body(c *ev.Ctx) {
 			for _, k := range list {
 				cases = append(cases, c15Case{sname, f, k, "reader"})
 			}
+			// file lengths that are multiples of a power of two (buffer, block, chunk and page sizes): a reader
+			// that works in blocks meets "the file ends exactly where a block ends" only there
+			aligned := map[int]bool{}
+			for _, sh := range []uint{9, 12, 16, 20, 22, 23, 24, 25} {
+				unit := 1 << sh
+				if unit >= L {
+					continue
+				}
+				nm := (L - 1) / unit
+				all := sh >= 22 || (!quick && sh >= 20)
+				for m := 1; m <= nm; m++ {
+					if all || m <= 2 || m > nm-2 {
+						aligned[m*unit] = true
+					}
+				}
+			}
+			var alist []int
+			for k := range aligned {
+				alist = append(alist, k)
+			}
+			sort.Ints(alist)
+			if !quick || sname == "deletion" {
+				for _, k := range alist {
+					cases = append(cases, c15Case{sname, f, k, "file"})
+					if !quick || k%(1<<22) == 0 {
+						cases = append(cases, c15Case{sname, f, k, "reader"})
+					}
+				}
+				nAligned += len(alist)
+			}
 			for _, k := range []int{0, 5, 8 + pkLen.n/2, 8 + pkLen.n + vkLen.n/2, 8 + pkLen.n + vkLen.n + (L-8-pkLen.n-vkLen.n)/2, L - 1} {
 				cases = append(cases, c15Case{sname, f, k, "file"})
 				if sname == "deletion" && (f == "raw" || !quick) {
@@ -398,7 +465,8 @@ func c15Body(c *ev.Ctx) {
 		}
 	}
 	cases = append(cases, cliCuts...)
-	c.Logf("%d small-system cuts, %d real-system cuts, %d CLI runs", nA, len(cases)-nA-len(cliCuts), len(cliCuts))
+	c.Logf("%d small-system cuts, %d real-system cuts (%d of them power-of-two aligned lengths), %d CLI runs", nA, len(cases)-nA-len(cliCuts), nAligned, len(cliCuts))
+	c.Set("aligned_file_lengths", int64(nAligned))
 	var rejected int64
 	done := par.For(len(cases), func(i int) {
 		msg, err := c15Eval(&cases[i])
